@@ -203,7 +203,7 @@ def tasks(tier, seed):
     for t in extra:
         P.append({"family": "ORDER", "id": text_id(t), "text": t, "meta": {}})
     dg = families.dag_family(3, 2)
-    P += families.select(dg, 14 if tier == "quick" else 300, seed)
+    P += families.select(dg, 14 if tier == "quick" else 90, seed)
     P += families.layout_family()
     if tier != "quick":
         P += families.corpus(["lorentz.ode", "fitzhughnagumo.ode"])
@@ -302,6 +302,6 @@ def handle(prog, res, src, what, main, twin, text=None):
 
 
 def bounds(tier):
-    return {"graphs": "dependency graphs of 3 ORDER + %s DAG + LAYOUT programs" % ("14" if tier == "quick" else "300"),
+    return {"graphs": "dependency graphs of 3 ORDER + %s DAG + LAYOUT programs" % ("14" if tier == "quick" else "90"),
             "orders": "all permutations of every dependency set jointly when the product <= 240, else all joint permutations of every pair of sets (others canonical)", "history": "2 earlier get_scheme calls x 9 names",
             "crosshair_per_condition_timeout_s": 90, "hash_seeds": [0, 1, 2, 3]}
